@@ -29,7 +29,7 @@ LEVEL_NOTE = ('Cell values encode (model, aperture, wavelength); exact rational 
 RULE = ("cases: package configurations; executions: convolve_model_dir on both formats (+ memmap variants), every output row compared, then Fitter.fit on 4 variants x sources; "
         "non-trivial = distinct configurations with >= 2 models")
 ASSUMPTIONS = ["all SEDs of a package share the wavelength grid", "finite value alphabets"]
-REQUIRED_CLASSES = ['spectra-of-100-points-or-more', 'filters-overhanging-both-ends-of-the-spectra', 'more-than-128-models', 'permuted-table', 'filenames-disagree-with-model-names', 'listing-reversed', 'sed-wav-ascending', 'three-filters', 'single-model', 'eight-models',
+REQUIRED_CLASSES = ['two-packages-under-one-relative-path', 'spectra-of-100-points-or-more', 'filters-overhanging-both-ends-of-the-spectra', 'more-than-128-models', 'permuted-table', 'filenames-disagree-with-model-names', 'listing-reversed', 'sed-wav-ascending', 'three-filters', 'single-model', 'eight-models',
                     'five-apertures', 'formats-compared', 'fits-compared', 'remove-resolved', 'all-permutations-4', 'apertures-in-other-unit', 'seds-in-subdirs-or-gz', 'parameters-gz', 'seds-stored-in-Jy', 'seds-on-different-grids', 'single-real-aperture', 'error-column-in-other-unit', 'convolve-after-listing']
 TIMEOUT = {'quick': 600, 'thorough': 3000}
 
@@ -349,6 +349,49 @@ def run_case(ctx, case, rec, d):
             if not ok:
                 rec.violation('fit-variants|disagree|%s%s' % ('remove_resolved|' if case['rr'] else '', '%s-%s' % (key[0], 'memmap' if key[1] else 'nomemmap')),
                               {'variant': list(key), 'source': si}, {'reference_variant': list(ref_key), 'chi2_ref': a[2], 'chi2': b[2], 'sc_ref': a[1], 'sc': b[1]})
+    # ---- the per-file package and another package with the same model names (every flux scaled by a model-dependent factor) are
+    # addressed by the SAME relative path from two working directories: each fit must be that of the package actually there
+    if res.get(('v1', False)) and n_models >= 2 and case.get('_deviations', 0) <= 1:
+        import shutil
+        from astropy.io import fits as _fits
+        cwd0 = os.getcwd()
+        try:
+            dx = os.path.join(d, 'elsewhere')
+            os.makedirs(dx)
+            mdx = os.path.join(dx, 'pkg_v1')
+            shutil.copytree(md1, mdx)
+            for b_ in bands:
+                fp = os.path.join(mdx, 'convolved', b_ + '.fits')
+                with _fits.open(fp) as h_:
+                    t_ = h_['CONVOLVED FLUXES'].data
+                    nm_ = [str(x).strip() for x in t_['MODEL_NAME']]
+                    fac = np.array([1.0 + 0.5 * base_names.index(x) for x in nm_])
+                    for col in ('TOTAL_FLUX', 'TOTAL_FLUX_ERR'):
+                        arr = np.asarray(t_[col], float)
+                        t_[col][:] = arr * (fac[:, None] if arr.ndim == 2 else fac)
+                    h_.writeto(fp, overwrite=True)
+            use = [s for s in srcs if (n_ap > 1 or sum(1 for v in s[0] if v in (1, 4)) >= 2)]
+            os.chdir(d)
+            rel_a = [fc.make_fitter('pkg_v1', bands, 'power', (0.0, 8.0), distance_range_kpc=dr, theta=theta, memmap=False, remove_resolved=case['rr']).fit(fc.make_source(*s)) for s in use]
+            os.chdir(dx)
+            rel_x = [fc.make_fitter('pkg_v1', bands, 'power', (0.0, 8.0), distance_range_kpc=dr, theta=theta, memmap=False, remove_resolved=case['rr']).fit(fc.make_source(*s)) for s in use]
+            os.chdir(cwd0)
+            abs_x = [fc.make_fitter(mdx, bands, 'power', (0.0, 8.0), distance_range_kpc=dr, theta=theta, memmap=False, remove_resolved=case['rr']).fit(fc.make_source(*s)) for s in use]
+            rec.trans(3 * len(use))
+            rec.cls('two-packages-under-one-relative-path')
+            for what, got_l, want_l in (('first package by relative path', rel_a, res[('v1', False)]), ('second package by the same relative path from another directory', rel_x, abs_x)):
+                for si, (g_, w_) in enumerate(zip(got_l, want_l)):
+                    a, b = byname(w_), byname(g_)
+                    rec.ev(n_models)
+                    fin = np.isfinite(a[2]) & np.isfinite(b[2])
+                    if not (np.array_equal(np.isfinite(a[2]), np.isfinite(b[2])) and np.allclose(b[2][fin], a[2][fin], rtol=1e-9, atol=1e-9) and np.allclose(b[1][fin], a[1][fin], rtol=1e-12, atol=1e-12)):
+                        rec.violation('fit-variants|disagree|relative-path', {'which': what, 'source': si}, {'problem': 'the fit of the %s differs from the fit of the same package addressed by its absolute path' % what, 'chi2_abs': a[2], 'chi2_rel': b[2]})
+                        break
+        except Exception as e:
+            from mc.runner import exc_signature
+            rec.violation('fit-variants|relative-path|' + exc_signature(e), {'relative': True}, {'type': type(e).__name__, 'msg': str(e)[:300]})
+        finally:
+            os.chdir(cwd0)
     # ---- the package is used (fit, parameter listing) and then ANOTHER filter is convolved: the new file must follow the
     # parameter-table order like the earlier ones
     if n_models >= 2 and res.get(('v1', False)):
